@@ -57,6 +57,14 @@ RULE += (' ' +
          'encodings of the server key; non-ASCII and dash-prefixed server '
          'ids; a session service that answers the first join attempts with '
          'errors. ')
+RULE += (' ' +
+         'Added in later rounds: the login as the second session of its '
+         'Connection object (prior session with another threshold, reconnect '
+         'from a handler or by the user); plugin take-over forms; four DER '
+         'encodings of the server key; non-ASCII and dash-prefixed server '
+         'ids; a session service that answers the first join attempts with '
+         'errors. Round 12: connected sockets and file objects of ended '
+         'sessions are closed. ')
 LEVEL_TEXT = ('Model-based testing of the login state machine over '
               'generated server scripts x protocol eras x client '
               'configurations with independent crypto oracles.')
